@@ -22,6 +22,7 @@ pub struct W2Prog {
     pub pos: Vec<Option<(u64, u64)>>,
     pub tok_off: Vec<Option<u64>>,
     pub calls: Vec<CallEvent>,
+    pub ops: Vec<CallEvent>,
     pub feats: Vec<Vec<String>>,
     pub site: Vec<String>,
     pub spaces: Vec<Space>,
@@ -48,11 +49,16 @@ impl W2Prog {
                 "chain": e.chain.iter().map(|(n, c)| json!([n, c])).collect::<Vec<_>>(),
                 "chain_in_slot": e.chain_in_slot, "in_interp": e.in_interp, "via_return": e.via_return,
             })).collect::<Vec<_>>(),
+            "ops": self.ops.iter().map(|e| json!({
+                "node": e.node, "off": e.off, "func": e.func,
+                "chain": e.chain.iter().map(|(n, c)| json!([n, c])).collect::<Vec<_>>(),
+                "chain_in_slot": e.chain_in_slot, "in_interp": e.in_interp, "via_return": e.via_return,
+            })).collect::<Vec<_>>(),
             "pos": self.pos.iter().map(|p| p.map(|(l, c)| json!([l, c])).unwrap_or(J::Null)).collect::<Vec<_>>(),
             "tok_off": self.tok_off,
             "feats": self.feats,
             "site": self.site,
-            "spaces": self.spaces.iter().map(|s| json!([s.off, s.line, s.col, s.after_first_print, s.top_stmt])).collect::<Vec<_>>(),
+            "spaces": self.spaces.iter().map(|s| json!([s.off, s.line, s.col, s.after_first_print, s.top_stmt, s.stmt_level])).collect::<Vec<_>>(),
             "n_stmts": self.n_stmts, "top_ids": self.top_ids, "lines": self.lines,
         })
     }
@@ -80,8 +86,10 @@ impl W2Prog {
             });
         }
         let mut calls = vec![];
-        for e in j.get("calls")?.as_array()? {
-            calls.push(CallEvent {
+        let mut ops = vec![];
+        for (key, target) in [("calls", &mut calls), ("ops", &mut ops)] {
+          for e in j.get(key).and_then(J::as_array).map(|a| a.as_slice()).unwrap_or(&[]) {
+            target.push(CallEvent {
                 node: e.get("node")?.as_u64()? as usize,
                 off: e.get("off")?.as_u64()?,
                 func: ostr(e.get("func")?),
@@ -90,6 +98,7 @@ impl W2Prog {
                 in_interp: e.get("in_interp")?.as_bool()?,
                 via_return: e.get("via_return")?.as_bool()?,
             });
+          }
         }
         let pos = j.get("pos")?.as_array()?.iter().map(|p| Some((p.get(0)?.as_u64()?, p.get(1)?.as_u64()?))).collect();
         let tok_off = j.get("tok_off")?.as_array()?.iter().map(J::as_u64).collect();
@@ -97,7 +106,7 @@ impl W2Prog {
         let site = j.get("site")?.as_array()?.iter().filter_map(|x| x.as_str().map(str::to_string)).collect();
         let mut spaces = vec![];
         for s in j.get("spaces")?.as_array()? {
-            spaces.push(Space { off: s.get(0)?.as_u64()?, line: s.get(1)?.as_u64()?, col: s.get(2)?.as_u64()?, after_first_print: s.get(3)?.as_bool()?, top_stmt: s.get(4)?.as_u64()? as usize });
+            spaces.push(Space { off: s.get(0)?.as_u64()?, line: s.get(1)?.as_u64()?, col: s.get(2)?.as_u64()?, after_first_print: s.get(3)?.as_bool()?, top_stmt: s.get(4)?.as_u64()? as usize, stmt_level: s.get(5).and_then(J::as_bool).unwrap_or(false) });
         }
         let mut stdout = vec![];
         for e in &events {
@@ -110,6 +119,7 @@ impl W2Prog {
             pos,
             tok_off,
             calls,
+            ops,
             feats,
             site,
             spaces,
@@ -151,6 +161,7 @@ pub fn build(aux: &J) -> W2Prog {
     w.run();
     let overflow = w.overflow;
     let calls = w.calls.clone();
+    let ops = w.ops.clone();
     let events = w.events;
     let mut stdout = vec![];
     for e in &events {
@@ -174,6 +185,7 @@ pub fn build(aux: &J) -> W2Prog {
         pos: p.pos.clone(),
         tok_off: p.tok_off.clone(),
         calls,
+        ops,
         feats: p.feats.clone(),
         site: prog.site.clone(),
         spaces,
